@@ -45,22 +45,35 @@ fn check(st: &mut St, cfg: &CfgD, pristine: &Emf, entry: &EntryD) {
         st.out_of_domain += 1;
         return;
     }
-    check_one(st, cfg, pristine, entry, false);
-    check_one(st, cfg, pristine, entry, true);
+    check_one(st, cfg, pristine, entry, false, false);
+    check_one(st, cfg, pristine, entry, true, false);
+    if cfg.mult != Mult::None {
+        // the same long-lived sampling formatter through its unsampled `Format::format` route:
+        // the records of a plain formatter (counts not weighted)
+        check_one(st, cfg, pristine, entry, true, true);
+    }
 }
 
-fn check_one(st: &mut St, cfg: &CfgD, pristine: &Emf, entry: &EntryD, reused: bool) {
+fn check_one(st: &mut St, cfg: &CfgD, pristine: &Emf, entry: &EntryD, reused: bool, unsampled_route: bool) {
     let mut out = std::mem::take(&mut st.out);
-    let outcome = if reused {
+    let plain_cfg;
+    let (cfg, outcome) = if reused {
         st.reused_compared += 1;
         out.clear();
         let mult = cfg.mult;
-        st.reused.entry(pristine as *const Emf as usize).or_insert_with(|| Runner::from_emf(pristine.clone(), mult)).format(entry, &mut out)
+        let r = st.reused.entry(pristine as *const Emf as usize).or_insert_with(|| Runner::from_emf(pristine.clone(), mult));
+        if unsampled_route {
+            let o = r.format_in_mode(entry, &mut out, None);
+            plain_cfg = CfgD { mult: Mult::None, ..cfg.clone() };
+            (&plain_cfg, o)
+        } else {
+            (cfg, r.format(entry, &mut out))
+        }
     } else {
-        run_fresh(pristine, cfg.mult, entry, &mut out)
+        (cfg, run_fresh(pristine, cfg.mult, entry, &mut out))
     };
-    let suffix = if reused { ":on-reused-formatter" } else { "" };
-    let replay = || json!({"config": cfg.to_json(), "entry": entry.to_json(), "formatter": if reused { "long-lived (had formatted other entries before)" } else { "fresh" }, "output": String::from_utf8_lossy(&out)});
+    let suffix = if unsampled_route { ":on-reused-sampling-formatter-unsampled-route" } else if reused { ":on-reused-formatter" } else { "" };
+    let replay = || json!({"config": cfg.to_json(), "entry": entry.to_json(), "formatter": if unsampled_route { "long-lived sampling formatter (had formatted sampled entries before), called through Format::format" } else if reused { "long-lived (had formatted other entries before)" } else { "fresh" }, "output": String::from_utf8_lossy(&out)});
     match &outcome {
         Outcome::Ok => match parse_output(&out) {
             Ok(recs) => {
